@@ -32,6 +32,10 @@ pub struct Case {
     pub feature: String,
     /// Some(expected printed text) for the wrapping-arithmetic oracle
     pub expect_print: Option<String>,
+    /// the program contains one of the faults the property lists on every path: every maximal
+    /// play path must report an error (Err result, pending error or handler callback);
+    /// Some(Some(k)): the fault sits in knot k, so a host path jump to k must report it as well
+    pub fault: Option<Option<&'static str>>,
 }
 
 const PRELUDE: &str = "VAR imax = 2147483647\nVAR imin = -2147483647\nLIST lst = (la), lb, (lc)\nVAR emp = ()\nVAR r = 0\n~ imin = (0 - 2147483647) - 1\n";
@@ -99,6 +103,8 @@ pub fn expression_cases() -> Vec<Case> {
                         source: format!("{PRELUDE}{}{POSTLUDE}", position(&expr, pos)),
                         feature: format!("{op}/{ca},{cb}"),
                         expect_print: expect,
+                        // integer division / modulo by zero
+                        fault: if (*op == "/" || *op == "%") && va.is_some() && *vb == Some(0) { Some(None) } else { None },
                     });
                 }
             }
@@ -117,6 +123,7 @@ pub fn expression_cases() -> Vec<Case> {
                     source: format!("{PRELUDE}{}{POSTLUDE}", position(&expr, pos)),
                     feature: format!("unary{op}/{ca}"),
                     expect_print: expect,
+                    fault: None,
                 });
             }
         }
@@ -162,7 +169,16 @@ pub fn statement_cases() -> Vec<Case> {
     ];
     items
         .iter()
-        .map(|(n, s)| Case { id: format!("b/{n}"), family: "statement", source: s.to_string(), feature: n.to_string(), expect_print: None })
+        .map(|(n, s)| {
+            // the faults the property names: bad divert variables, unbound externals, running out
+            // of content, wrong operand types
+            let fault = match *n {
+                "divert-var-int" | "divert-var-string" | "unbound-external-no-fallback" | "fall-off-tunnel" | "string-times-int" => Some(None),
+                "fall-off-knot" | "divert-var-ok-then-int" | "tunnel-return-outside" => Some(Some("k")),
+                _ => None,
+            };
+            Case { id: format!("b/{n}"), family: "statement", source: s.to_string(), feature: n.to_string(), expect_print: None, fault }
+        })
         .collect()
 }
 
@@ -287,6 +303,39 @@ pub fn run_case(case: &Case, depth: usize) -> Outcome {
                 }
             }
         }
+        // the fault must be reported: on every maximal play path, and after a host path jump
+        // into the knot that holds it
+        if let Some(jump) = case.fault {
+            let reported = |hist: &[Op]| -> Option<bool> {
+                let (mut i, rs) = Inst::build(&prog, &setup, hist).ok()?;
+                if i.fuel_exhausted {
+                    return None;
+                }
+                let o = i.observe(false);
+                Some(rs.iter().any(|r| r.starts_with("err")) || o["errors"].as_array().map(|a| !a.is_empty()).unwrap_or(false) || i.events_raw().iter().any(|e| e.starts_with("handler:E")))
+            };
+            for (h, o) in &nodes {
+                if sigma_play(o).is_empty() && reported(h) == Some(false) {
+                    out.violations.push((format!("fault-not-reported/play/{}", case.feature), format!("the story contains the fault `{}` on this path, but no Err result, pending error or handler callback reported it", case.feature), json!({"history": hist_to_json(h), "handler": handler})));
+                    break;
+                }
+            }
+            if let Some(k) = jump {
+                for reset in [true, false] {
+                    let mut hh = vec![Op::ChoosePath(k.to_string(), reset)];
+                    for _ in 0..6 {
+                        let Ok((mut i, _)) = Inst::build(&prog, &setup, &hh) else { break };
+                        if i.observe(false)["can_continue"] != true {
+                            break;
+                        }
+                        hh.push(Op::Cont);
+                    }
+                    if reported(&hh) == Some(false) {
+                        out.violations.push((format!("fault-not-reported/after-path-jump/{}", case.feature), format!("after choose_path_string({k}, reset_callstack={reset}) the fault `{}` in that knot is reported neither as Err nor to the handler", case.feature), json!({"history": hist_to_json(&hh), "handler": handler})));
+                    }
+                }
+            }
+        }
     }
     out.transcript = t;
     out
@@ -334,7 +383,7 @@ fn all_cases(tier: Tier) -> (Vec<Case>, usize) {
     for (name, _src, toks) in corpus_mutant_space(nf, mt) {
         for i in 0..mutate::token_edit_count(&toks) {
             let m = mutate::token_edit_nth(&toks, i);
-            v.push(Case { id: format!("c/{name}/{i}"), family: "corpus-mutant", source: m.text, feature: format!("{name}: {}", m.desc), expect_print: None });
+            v.push(Case { id: format!("c/{name}/{i}"), family: "corpus-mutant", source: m.text, feature: format!("{name}: {}", m.desc), expect_print: None, fault: None });
         }
     }
     (v, base)
@@ -508,7 +557,7 @@ pub fn run(tier: Tier) -> i32 {
 
 pub fn replay(art: &Value) -> String {
     let src = art["source"].as_str().unwrap_or("");
-    let c = Case { id: art["case"].as_str().unwrap_or("replay").to_string(), family: "replay", source: src.to_string(), feature: String::new(), expect_print: None };
+    let c = Case { id: art["case"].as_str().unwrap_or("replay").to_string(), family: "replay", source: src.to_string(), feature: String::new(), expect_print: None, fault: None };
     let o = run_case(&c, 6);
     let _ = Rc::new(0);
     if std::env::var("VERIF_DUMP").is_ok() {
